@@ -139,6 +139,15 @@ mod orders;
 mod price_level;
 mod utils;
 
+#[cfg(pricelevel_verif)]
+pub mod verif_shim;
+#[cfg(pricelevel_verif)]
+pub use execution::TransactionList;
+#[cfg(pricelevel_verif)]
+pub use orders::OrderStatus;
+#[cfg(pricelevel_verif)]
+pub use price_level::{OrderBookEntry, PriceLevelSnapshotPackage, PriceLevelStatistics};
+
 mod errors;
 mod execution;
 
